@@ -234,6 +234,8 @@ func exec(line string) zv.Out {
 		return execCT(f)
 	case "wrap":
 		return execWrap(f)
+	case "tbs":
+		return execTbs(f)
 	case "std":
 		return execStd(f)
 	case "bundle":
@@ -296,7 +298,7 @@ func certSummary(c *x509.Certificate, canon, vbit string) string {
 	return fmt.Sprintf("v=%d tbs=%s iss=%s sub=%s spki=%s md5=%s sha1=%s sha256=%s spkifp=%s tbsfp=%s spkisub=%s noct=%s eq=%s ss=%s",
 		c.Version, goSpan(c.Raw, c.RawTBSCertificate), goSpan(c.Raw, c.RawIssuer), goSpan(c.Raw, c.RawSubject),
 		goSpan(c.Raw, c.RawSubjectPublicKeyInfo), hx(c.FingerprintMD5), hx(c.FingerprintSHA1), hx(c.FingerprintSHA256),
-		hx(c.SPKIFingerprint), hx(c.TBSCertificateFingerprint), hx(c.SPKISubjectFingerprint), noct, b01(eq), ss)
+		hx(c.SPKIFingerprint), hx(c.TBSCertificateFingerprint), hx(c.SPKISubjectFingerprint), noct, b01(eq), ss) + infoSuffix(c)
 }
 
 // metaViol: the property evaluated on ONE Certificate value c that some entry point returned for the DER der:
@@ -405,6 +407,9 @@ func metaViol(c *x509.Certificate, der []byte, canon, vbit string) (viol []strin
 	if c.ValidityPeriod != int(c.NotAfter.Sub(c.NotBefore).Seconds()) {
 		bad("ValidityPeriod")
 	}
+	iv, it := infoViol(c, c.RawTBSCertificate)
+	viol = append(viol, iv...)
+	tags = append(tags, it...)
 	return viol, tags
 }
 
@@ -932,6 +937,8 @@ func gen(g *zv.Gen) {
 	// self-signed / same name other key / other name own key / other name other key, surgical v1 / unique-id / empty-[3] /
 	// poison variants signed again with standard-library primitives) and bundles through every parse entry point
 	genEntry(g, append([][]byte{}, accepted...), add)
+	// 3c. Validity forms, inner != outer signature algorithm, and ParseTBSCertificate as an entry point (tbs lines)
+	genTbs(g, append([][]byte{}, accepted...), add)
 	// 4. byte-level mutants; the accepted ones are cases, the rejected ones are only counted
 	nMut := g.N(6000, 250000)
 	pool := append([][]byte{}, accepted...)
